@@ -55,12 +55,13 @@ def cases(rng, tier):
             keep = rng.random() < 0.2 and axis is not None and how == "method"
             if name in NO_IDENTITY and not any(l > 0 for l in lens):
                 continue      # max/min/mean/argmax/argmin speak about non-empty rows only; an array without any is not judged
-            out.append({"lens": lens, "how": how, "name": name, "dtype": dt, "axis": axis, "keepdims": keep, "vseed": rng.randint(0, 999)})
+            out.append({"lens": lens, "how": how, "name": name, "dtype": dt, "axis": axis, "keepdims": keep, "vseed": rng.randint(0, 999),
+                        "vmode": "rare" if rng.random() < 0.3 else "small"})
     return out
 
 
 def key(p):
-    return engine.stable_hash([p["lens"], p["how"], p["name"], p["dtype"], p["axis"], p["keepdims"]])
+    return engine.stable_hash([p["lens"], p["how"], p["name"], p["dtype"], p["axis"], p["keepdims"], p.get("vmode")])
 
 
 def nontrivial(p):
@@ -72,12 +73,13 @@ def distribution(ps):
     d["reductions"] = gens.hist(p["how"] + ":" + p["name"] for p in ps)
     d["axis"] = gens.hist(p["axis"] for p in ps)
     d["dtypes"] = gens.hist(p["dtype"] for p in ps)
+    d["value_modes"] = gens.hist(p.get("vmode", "small") for p in ps)
     d["trailing_empty_after_interior_empty"] = sum(1 for p in ps if len(p["lens"]) >= 3 and p["lens"][-1] == 0 and any(l == 0 for l in p["lens"][:-1]) and any(l > 0 for l in p["lens"]))
     return d
 
 
 def _vals(p):
-    return gens.cell_values(p["dtype"], sum(p["lens"]), random.Random(p["vseed"]), mode="small")
+    return gens.cell_values(p["dtype"], sum(p["lens"]), random.Random(p["vseed"]), mode=p.get("vmode", "small"))
 
 
 def _masked(values, lens, need_nonempty):
@@ -247,16 +249,56 @@ def same(a, b):
     return engine.same(a, b)
 
 
+def _sum_bounds(p):
+    """per row: the classical bound on the difference of two floating-point summation orders, 2 n eps sum|x| (None = the row
+    holds a non-finite cell or overflows: any pair of non-finite results is the same finding)"""
+    vals = _vals(p).astype(np.float64)
+    eps = 2.0 ** -23 if p["dtype"] == "float32" else 2.0 ** -52
+    out, k = [], 0
+    for l in p["lens"]:
+        r = vals[k:k + l]; k += l
+        if l == 0:
+            out.append(0.0); continue
+        s = float(np.sum(np.abs(r)))
+        if not np.all(np.isfinite(r)) or not np.isfinite(s) or (p["dtype"] == "float32" and s > 3.0e38):
+            out.append(None); continue
+        b = 2.0 * l * eps * s
+        out.append(b / l if p["name"] == "mean" else b)
+    return out
+
+
+def _within(a, b, bounds):
+    if len(a) != len(b) or len(a) != len(bounds):
+        return False
+    for x, y, bd in zip(a, b, bounds):
+        if x is None or y is None:
+            if x is not y:
+                return False
+            continue
+        fx, fy = float(_num(x)), float(_num(y))
+        if fx == fy or (fx != fx and fy != fy):
+            continue
+        if bd is None:
+            if np.isfinite(fx) and np.isfinite(fy):
+                return False
+            continue
+        if not abs(fx - fy) <= bd + 1e-300:
+            return False
+    return True
+
+
 def matches_finding(f, p, impl, expect):
     if f["id"] == "F05c":
-        if np.dtype(p["dtype"]).kind != "f" or p["name"] not in ("sum", "add", "mean"):
+        # float sums; and the mean of an integer / bool array, which both sides compute by a float64 summation
+        if p["name"] not in ("sum", "add", "mean") or (np.dtype(p["dtype"]).kind != "f" and p["name"] != "mean"):
             return False
-        tol = 1e-6 if p["dtype"] == "float32" else 1e-12
         try:
             if "values" in impl and "values" in expect:
-                return engine.same(impl.get("dtype"), expect.get("dtype")) and _close_lists(impl["values"]["v"], expect["values"]["v"], tol)
+                return engine.same(impl.get("dtype"), expect.get("dtype")) and _within(impl["values"]["v"], expect["values"]["v"], _sum_bounds(p))
             if "scalar" in impl and "scalar" in expect:
-                return _close_lists([impl["scalar"]["v"]], [expect["scalar"]["v"]], tol)
+                bs = _sum_bounds(p)
+                tot = None if any(b is None for b in bs) else sum(bs) * max(1, len(bs))
+                return _within([impl["scalar"]["v"]], [expect["scalar"]["v"]], [tot])
         except Exception:
             return False
     return False
